@@ -21,21 +21,21 @@ Proof.
   vm_compute. reflexivity.
 Qed.
 
-(* mask with a list key given in any order *)
+(* mask with a list key given in any order, negative positions included (-3 is column 3) *)
 Example ex_mask :
-  res_map flatten (M_mask_blocks ex_tb (CList [4; 0; 3]) [1; 1] [0; 0]) =
+  res_map flatten (M_mask_blocks ex_tb (CList [4; 0; -3]) [1; 1] [0; 0]) =
   Ok [(DBool, [1; 1]); (DBool, [0; 0]); (DBool, [0; 0]); (DBool, [1; 1]); (DBool, [1; 1]); (DBool, [0; 0])].
 Proof.
-  rewrite (mask_blocks_refines [1; 1] [0; 0] ex_tb (CList [4; 0; 3]) ex_tb_wf ltac:(discriminate) eq_refl). vm_compute. reflexivity.
+  rewrite (mask_blocks_refines [1; 1] [0; 0] ex_tb (CList [4; 0; -3]) ex_tb_wf ltac:(discriminate) eq_refl). vm_compute. reflexivity.
 Qed.
 
-(* assign value columns 100, 101, 102 (cells replaced entirely) to the columns addressed by the list key [4; 1; 2] *)
+(* assign value columns 100, 101, 102 (cells replaced entirely) to the columns addressed by the list key [4; -5; 2] (-5 is column 1) *)
 Example ex_assign :
   res_map flatten (M_assign_unit_blocks true true (fun _ => DObj) (fun v _ => [100 + v; 100 + v]) ex_tb
-                     (asc_key (CList [4; 1; 2]) (Z.of_nat (length (flatten ex_tb))))) =
+                     (ascending_key (CList [4; -5; 2]) (Z.of_nat (length (flatten ex_tb))) false)) =
   Ok [(DInt true 8, [1; 2]); (DObj, [100; 100]); (DObj, [101; 101]); (DFlt 8, [7; 8]); (DObj, [102; 102]); (DInt true 8, [11; 12])].
 Proof.
   pose proof (assign_unit_blocks_refines true true (fun _ => DObj) (fun v (_ : list Z) => [100 + v; 100 + v])
-                ex_tb (CList [4; 1; 2]) [4; 1; 2] ex_tb_wf ltac:(discriminate) eq_refl (or_introl eq_refl) eq_refl) as H.
+                ex_tb (CList [4; -5; 2]) false [4; 1; 2] ex_tb_wf ltac:(discriminate) eq_refl (or_introl eq_refl) eq_refl) as H.
   rewrite H. vm_compute. reflexivity.
 Qed.
